@@ -252,6 +252,13 @@ def hex_mixed_sound(data):
         up = ball(bor(between(48, c, 57), between(65, c, 70)) for c in cov)
         if not bor(lo, up):
             return hx.fail("find_hex: mixed-case run decoded", data=data, hit=h), True
+    # completeness: when the whole run is same-case, it is decoded as ONE unit covering exactly the run
+    run = list(data[1:-1])
+    lo_all = ball(bor(between(48, c, 57), between(97, c, 102)) for c in run)
+    up_all = ball(bor(between(48, c, 57), between(65, c, 70)) for c in run)
+    if bor(lo_all, up_all):
+        if len(hits) != 1 or not (hits[0].start == 1 and hits[0].end == len(data) - 1):
+            return hx.fail("find_hex: a same-case run of >= 10 pairs is not decoded as one unit", data=data, hits=hits), True
     return True, len(hits) > 0
 
 
